@@ -42,6 +42,10 @@ pub enum Framing {
     NullFamily { fam: u8, big_endian: bool },
     /// Ethernet with one 802.1Q / 802.1ad tag (trunk and mirror ports): TPID, TCI, then the real EtherType
     Vlan { tpid: u16, tci: u16 },
+    /// Linux cooked capture (`tcpdump -i any`, DLT_LINUX_SLL): packet type, ARPHRD, address length, 8 address
+    /// bytes, then the protocol - 16 bytes in front of the IP packet. None of the parsers reads it; the frames
+    /// must be ignored by filter and analysis alike
+    Sll { pkttype: u8 },
 }
 
 #[derive(Clone, Debug, Serialize, Deserialize)]
@@ -274,6 +278,12 @@ pub fn wrap(ip: &[u8], v4: bool, framing: Framing) -> Vec<u8> {
             f.extend_from_slice(ip);
             f
         }
+        Framing::Sll { pkttype } => {
+            let mut f = vec![0, pkttype, 0, 1, 0, 6, 0x02, 0, 0, 0, 0, 0x01, 0, 0];
+            f.extend_from_slice(if v4 { &[0x08, 0x00] } else { &[0x86, 0xDD] });
+            f.extend_from_slice(ip);
+            f
+        }
         Framing::NullFamily { fam, big_endian } => {
             let mut f = if big_endian { (fam as u32).to_be_bytes().to_vec() } else { (fam as u32).to_le_bytes().to_vec() };
             f.extend_from_slice(ip);
@@ -288,6 +298,7 @@ pub fn ip_offset_of(framing: Framing) -> usize {
         Framing::RawIp => 0,
         Framing::Ethernet => 14,
         Framing::Vlan { .. } => 18,
+        Framing::Sll { .. } => 16,
         Framing::Null1e | Framing::NullAf | Framing::NullFamily { .. } => 4,
     }
 }
